@@ -16,9 +16,20 @@ to the default provider).  Observation per reference: which provider was called.
 Kind "rrelsame": a package / class model loaded twice — RREL expression written
 in the grammar vs. the same string registered under one of the four keys — the
 two outcomes must be equal.
+
+Kind "multi" (tie X, op `calls`): ONE provider serves MANY references.  Pools `pa pb pe pc`
+hold the same package tree, `pd` uniquely named items.  Reference rules assign t / ts(list) / u,
+every assignment with its own match rule (`FQN`, `DOT[split='.']`, `PATH[split='/']`, `CPP[split='::']`,
+`RAW` = '/'-separated without split parameter, `MIX[split='/']` written with '.'), names have several parts.  A history of one meta-model:
+steps of `register_scope_providers` (RREL strings, RREL provider *objects* built once with
+`create_rrel_scope_provider` — with / without `split_string` — and callables, one object possibly bound to
+several keys) and model loads.  Observation per reference: pool and path of the target (= which provider,
+how the name was split).  Compared with (a) the documented precedence + delimiter rule (oracle), (b) the
+Lean model's call list, (c) the same history with the selected expressions written in the grammar.
 """
 import ast
 import os
+import re
 import shutil
 import tempfile
 
@@ -345,8 +356,9 @@ Import: 'import' importURI=STRING;
 Package: 'package' name=ID '{' (packages+=Package | classes+=Class)* '}';
 Class: 'class' name=ID '{' attrs*=Attr '}';
 Attr: 'attr' name=ID (':' type=[Class:FQN%s])?;
-Ref: 'ref' target=[Class:FQN%s];
+Ref: 'ref' target=[Class:%s%s];
 FQN: ID('.'ID)*;
+PATH[split='/']: ID('/'ID)*;
 """
 
 
@@ -397,7 +409,7 @@ def impl_rrelsame(case):
         main = os.path.join(tmp, "main.m")
         with open(main, "w") as f:
             f.write(("import \"lib.m\"\n" if case.get("lib") else "") + rs_text(case["main"])
-                    + "".join(f"ref {r}\n" for r in case["refs"]))
+                    + "".join(f"ref {r.replace('.', '/') if case.get('tsplit') else r}\n" for r in case["refs"]))
         if case.get("lib"):
             with open(os.path.join(tmp, "lib.m"), "w") as f:
                 f.write(rs_text(case["lib"]))
@@ -416,14 +428,344 @@ def impl_rrelsame(case):
                 return {"other": type(e).__name__}
 
         e = case["expr"]
+        # `tsplit`: Ref.target is matched by PATH[split='/'] (names written with '/'), Attr.type always by FQN
+        tm = "PATH" if case.get("tsplit") else "FQN"
+        if case["where"] == "both":
+            # one provider for both attributes (two match rules): '*.*', or one provider object under two keys
+            a = run(RS_GRAMMAR % ("|" + e, tm, "|" + e), None)
+            if case["key"] == "shared":
+                try:
+                    from textx.scoping.rrel import create_rrel_scope_provider
+                    shared = create_rrel_scope_provider(e)
+                    reg = {"Attr.type": shared, "Ref.target": shared}
+                except Exception as ex:
+                    return {"grammar": a, "registered": {"other": type(ex).__name__}}
+            else:
+                reg = {case["key"]: e}
+            b = run(RS_GRAMMAR % ("", tm, ""), reg)
+            return {"grammar": a, "registered": b}
         g_attr, g_ref = ("|" + e, "") if case["where"] == "Attr.type" else ("", "|" + e)
         # the reference attribute that is not under test keeps a fixed grammar RREL in both configurations
         fixed = "|^packages*.classes,classes"
-        a = run(RS_GRAMMAR % (g_attr or fixed, g_ref or fixed), None)
-        b = run(RS_GRAMMAR % ("" if g_attr else fixed, "" if g_ref else fixed), {case["key"]: e})
+        a = run(RS_GRAMMAR % (g_attr or fixed, tm, g_ref or fixed), None)
+        b = run(RS_GRAMMAR % ("" if g_attr else fixed, tm, "" if g_ref else fixed), {case["key"]: e})
         return {"grammar": a, "registered": b}
     finally:
         shutil.rmtree(tmp, ignore_errors=True)
+
+
+
+# --------------------------------------------------------------------------
+# kind "multi": one provider object serves many references
+# --------------------------------------------------------------------------
+# match rule -> (split parameter | None, separator written in names)
+# RAW / MIX names are written with a separator that is not the delimiter of the match rule: only a provider object
+# built with that split_string (or a callable) resolves them
+MATCH = {"FQN": (None, "."), "DOT": (".", "."), "PATH": ("/", "/"), "CPP": ("::", "::"), "RAW": (None, "/"),
+         "MIX": ("/", ".")}
+M_RULES = ("FQN: ID('.'ID)*;\nDOT[split='.']: ID('.'ID)*;\nPATH[split='/']: ID('/'ID)*;\n"
+           "CPP[split='::']: ID('::'ID)*;\nRAW: ID('/'ID)*;\nMIX[split='/']: ID(('/'|'.')ID)*;\n")
+M_POOLS = ["pa", "pb", "pe"]
+# (no parenthesised RREL groups: the textX grammar parser needs 30-60 ms for each of them)
+M_SHAPES = ["{p}.packages*.items", "^{p}.packages*.items", "^{p}.packages*.items,{q}.packages*.items",
+            "{p}.packages*.items,{q}.packages*.items"]
+PD_NAMES = ["d0", "d1", "d2"]
+
+
+def m_expr(pool, shape):
+    return M_SHAPES[shape].format(p=pool, q=M_POOLS[(M_POOLS.index(pool) + 1) % 3])
+
+
+def m_grammar(case, written=None):
+    """`written`: {(rule name, attr): expr} — expressions written at assignments that carry none in the case"""
+    written = written or {}
+
+    def ref(r, a):
+        asg = r["attrs"][a]
+        e = asg["rrel"] or written.get((r["name"], a))
+        return f"[Item:{asg['m']}" + ("|" + e if e else "") + "]"
+
+    lines = ["Model: 'pa' pa*=Package 'pb' pb*=Package 'pe' pe*=Package 'pc' pc*=Package 'pd' pd*=Item 'refs' refs*=R;",
+             "Package: 'package' name=ID '{' (packages+=Package | items+=Item)* '}';", "Item: 'item' name=ID;",
+             "R: " + " | ".join(r["name"] for r in case["rules"]) + ";"]
+    for r in case["rules"]:
+        s = f"'{r['name'].lower()}' t={ref(r, 't')}"
+        if "ts" in r["attrs"]:
+            s += f" ('+' ts+={ref(r, 'ts')}['&'])?"
+        if "u" in r["attrs"]:
+            s += f" ('@' u={ref(r, 'u')})?"
+        lines.append(f"{r['name']}: {s} ';';")
+    return "\n".join(lines) + "\n" + M_RULES
+
+
+def m_tree_text(paths):
+    def node(prefix):
+        out = ""
+        subs = []
+        for p in paths:
+            if p[:len(prefix)] == prefix and len(p) > len(prefix):
+                if len(p) == len(prefix) + 1:
+                    out += f"item {p[-1]} "
+                elif p[len(prefix)] not in subs:
+                    subs.append(p[len(prefix)])
+        for sname in subs:
+            out += f"package {sname} {{ " + node(prefix + [sname]) + "} "
+        return out
+
+    return node([])
+
+
+def m_refs(case, step):
+    """[(object index, rule, attr, j, path)] in text order"""
+    out = []
+    for oi, o in enumerate(step["objs"]):
+        r = case["rules"][o["rule"]]
+        out.append((oi, r, "t", 0, o["t"]))
+        for j, p in enumerate(o.get("ts") or []):
+            out.append((oi, r, "ts", j, p))
+        if o.get("u"):
+            out.append((oi, r, "u", 0, o["u"]))
+    return out
+
+
+def m_name(r, attr, path):
+    return MATCH[r["attrs"][attr]["m"]][1].join(path)
+
+
+def m_render(case, step):
+    tree = m_tree_text(case["tree"])
+    text = "".join(f"{p} {tree}\n" for p in ("pa", "pb", "pe", "pc"))
+    text += "pd " + " ".join("item " + n for n in PD_NAMES) + "\nrefs\n"
+    table = []
+    last = None
+    for (oi, r, attr, j, path) in m_refs(case, step):
+        if oi != last:
+            if last is not None:
+                text += " ;\n"
+            text += r["name"].lower() + " "
+            last = oi
+        elif attr == "ts":
+            text += " + " if j == 0 else " & "
+        else:
+            text += " @ "
+        name = m_name(r, attr, path)
+        table.append((oi, attr, j, len(text), name))
+        text += name
+    if last is not None:
+        text += " ;\n"
+    return text, table
+
+
+def m_selected(case, reg, r, attr):
+    """the documented precedence for one assignment: ('g', expr) | registered value | None (default)"""
+    asg = r["attrs"][attr]
+    if asg["rrel"]:
+        return ("g", asg["rrel"])
+    for key in (f"{r['name']}.{attr}", f"*.{attr}", f"{r['name']}.*", "*.*"):
+        if key in reg:
+            return reg[key]
+    return None
+
+
+def m_call(case, sel, r, attr, name):
+    """the provider call the property statement demands, in the shape of the Lean driver's answer"""
+    m = MATCH[r["attrs"][attr]["m"]][0]
+    if sel is None:
+        return ["default"]
+    if isinstance(sel, tuple):
+        expr, explicit = sel[1], None
+    elif "s" in sel:
+        expr, explicit = sel["s"], None
+    else:
+        pv = case["provs"][sel["o"]]
+        if "p" in pv:
+            return ["user", pv["p"]]
+        expr, explicit = pv["expr"], pv["split"]
+    delim = explicit if explicit is not None else (m if m is not None else ".")
+    return ["find", expr, delim, name.split(delim)]
+
+
+def m_expected_calls(case):
+    out = []
+    reg = {}
+    for step in case["steps"]:
+        if step["reg"] is not None:
+            reg = {k: v for k, v in step["reg"]}
+        out.append([m_call(case, m_selected(case, reg, r, attr), r, attr, m_name(r, attr, path))
+                    for (_, r, attr, _, path) in m_refs(case, step)])
+    return out
+
+
+def m_target(case, call, name):
+    """[pool, path] the call resolves to in the generated model, None when it finds nothing"""
+    tree = [list(p) for p in case["tree"]]
+    if call[0] == "default":
+        return ["pd", [name]] if name in PD_NAMES else None
+    if call[0] == "user":
+        parts = re.split(r"::|/|\.", name)
+        return ["pc", parts] if parts in tree else None
+    return [pool_of(call[1]), list(call[3])] if list(call[3]) in tree else None
+
+
+def m_check_step(case, step, calls, ob, who):
+    """compare the observation of one load with a list of calls (from the oracle or from the model)"""
+    refs = m_refs(case, step)
+    if len(calls) != len(refs):
+        return f"{who} lists {len(calls)} calls for {len(refs)} references"
+    want = [m_target(case, c, m_name(r, attr, path)) for c, (_, r, attr, _, path) in zip(calls, refs)]
+    if "err" in ob:
+        k = ob["err"][2]
+        if ob["err"][0] != "TextXSemanticError" or k is None:
+            return f"load failed with {ob['err']}, {who} expects references to be looked up"
+        if want[k] is not None:
+            return (f"reference #{k} ({refs[k][1]['name']}.{refs[k][2]} `{m_name(refs[k][1], refs[k][2], refs[k][4])}`) "
+                    f"is not resolved; {who}: {calls[k]} finds {want[k]}")
+        return None
+    if "ok" not in ob:
+        return f"load failed: {ob}"
+    for k, (c, w, got) in enumerate(zip(calls, want, ob["ok"])):
+        gcalls = got[2]
+        if w is None:
+            return f"reference #{k} resolved to {got[:2]}; {who}: {c} finds nothing"
+        if got[:2] != w or gcalls != ([c[1]] if c[0] == "user" else []):
+            return (f"reference #{k} ({refs[k][1]['name']}.{refs[k][2]} `{m_name(refs[k][1], refs[k][2], refs[k][4])}`): "
+                    f"{who}: {c} -> {w}; implementation: {got[:2]}, callables called {gcalls}")
+    return None
+
+
+def m_states(case):
+    """[(registration | None, [step indices])]: maximal runs of steps under one registration"""
+    out = []
+    for i, step in enumerate(case["steps"]):
+        if step["reg"] is not None or not out:
+            out.append((step["reg"], [i]))
+        else:
+            out[-1][1].append(i)
+    return out
+
+
+def m_grammar_form(case, reg_list):
+    """the same configuration with the selected RREL strings / plain RREL objects written in the grammar:
+    ({(rule, attr): expr}, remaining registration list)"""
+    reg = {k: v for k, v in (reg_list or [])}
+
+    def plain(v):
+        return "s" in v or ("expr" in case["provs"][v["o"]] and case["provs"][v["o"]]["split"] is None)
+
+    written = {}
+    for r in case["rules"]:
+        for attr in r["attrs"]:
+            sel = m_selected(case, reg, r, attr)
+            if isinstance(sel, dict) and plain(sel):
+                written[(r["name"], attr)] = sel["s"] if "s" in sel else case["provs"][sel["o"]]["expr"]
+    rest = [[k, v] for k, v in (reg_list or []) if not plain(v)]
+    return written, rest
+
+
+def impl_multi(case):
+    use_repo()
+    from textx import get_model, metamodel_from_str
+    from textx.exceptions import TextXError, TextXSemanticError
+    from textx.scoping.rrel import create_rrel_scope_provider
+
+    log = []
+
+    def custom(tag):
+        def provider(obj, attr, obj_ref):
+            log.append((tag, obj_ref.position))
+            parts = re.split(r"::|/|\.", obj_ref.obj_name)
+            node = next((p for p in get_model(obj).pc if p.name == parts[0]), None) if len(parts) > 1 else None
+            for part in parts[1:-1]:
+                if node is None:
+                    return None
+                node = next((p for p in node.packages if p.name == part), None)
+            if node is None:
+                return None
+            return next((it for it in node.items if it.name == parts[-1]), None)
+
+        return provider
+
+    def objects():
+        out = []
+        for pv in case["provs"]:
+            if "p" in pv:
+                out.append(custom(pv["p"]))
+            elif pv["split"] is None:
+                out.append(create_rrel_scope_provider(pv["expr"]))
+            else:
+                out.append(create_rrel_scope_provider(pv["expr"], split_string=pv["split"]))
+        return out
+
+    def where(model, o):
+        path = []
+        while True:
+            path.append(o.name)
+            par = o.parent
+            if par is model:
+                break
+            o = par
+        for pool in ("pa", "pb", "pe", "pc", "pd"):
+            if any(o is q for q in getattr(model, pool)):
+                return [pool, path[::-1]]
+        return [None, path[::-1]]
+
+    def load(mm, step):
+        text, table = m_render(case, step)
+        del log[:]
+        try:
+            model = mm.model_from_str(text)
+        except TextXSemanticError as e:
+            hit = [i for i, t in enumerate(table) if linecol(text, t[3]) == (e.line, e.col)]
+            return {"err": [type(e).__name__, getattr(e, "err_type", None), hit[0] if hit else None], "msg": str(e)[:160]}
+        except TextXError as e:
+            return {"err": [type(e).__name__, getattr(e, "err_type", None), None], "msg": str(e)[:160]}
+        except Exception as e:
+            return {"other": type(e).__name__, "msg": str(e)[:160]}
+        out = []
+        for (oi, attr, j, pos, _name) in table:
+            v = getattr(model.refs[oi], attr, None)
+            tgt = (v[j] if isinstance(v, list) and j < len(v) else None) if attr == "ts" else v
+            try:
+                w = where(model, tgt)
+            except Exception as e:
+                w = [None, "!" + type(e).__name__]
+            out.append(w + [[t for (t, p) in log if p == pos]])
+        extra = len(log) - sum(len(x[2]) for x in out)
+        return {"ok": out, "extra_calls": extra} if extra else {"ok": out}
+
+    def history(grammar_of_state, reg_of_state):
+        """one meta-model per call; per state `grammar_of_state` may demand a new one (grammar form)"""
+        obs = [None] * len(case["steps"])
+        mm, objs = None, None
+        for si, (reg_list, idxs) in enumerate(m_states(case)):
+            g = grammar_of_state(si, reg_list)
+            if g is not None:
+                mm = metamodel_from_str(g)
+                objs = objects()
+            rl = reg_of_state(si, reg_list)
+            if rl is not None:
+                mm.register_scope_providers({k: (v["s"] if "s" in v else objs[v["o"]]) for k, v in rl})
+            for i in idxs:
+                obs[i] = load(mm, case["steps"][i])
+        return obs
+
+    try:
+        registered = history(lambda si, rl: m_grammar(case) if si == 0 else None, lambda si, rl: rl)
+        forms = [m_grammar_form(case, rl) for rl, _ in m_states(case)]
+        if all(not w for w, _ in forms):
+            grammar = "same"  # nothing to write in the grammar: the two configurations are one
+        else:
+            grammar = history(lambda si, rl: m_grammar(case, forms[si][0]),
+                              lambda si, rl: None if rl is None else forms[si][1])
+    except TextXError as e:
+        return {"outcome": "mm-error", "cls": type(e).__name__, "msg": str(e)[:200]}
+    except Exception as e:
+        return {"outcome": "mm-other", "cls": type(e).__name__, "msg": str(e)[:200]}
+    return {"outcome": "ok", "registered": registered, "grammar": grammar}
+
+
+def m_strip(ob):
+    return {k: v for k, v in ob.items() if k != "msg"} if isinstance(ob, dict) else ob
 
 
 # --------------------------------------------------------------------------
@@ -440,9 +782,15 @@ class Prop(Check):
         "Select.C32_object_kept",
         "Select.C32_occurrence",
         "Select.C32_lastwins_false",
+        "Select.C32_rrel_call",
+        "Select.C32_rrel_string_same_call",
+        "Select.C32_shared_object",
+        "Select.C32_call_stateless",
+        "Select.C32_history",
+        "Select.C32_reregister",
     ]
     DRIVER = "Drivers/Select.lean"
-    QUICK_CASES = 380
+    QUICK_CASES = 500
     THOROUGH_CASES = 4000
     PROCS_THOROUGH = 4  # shared machine while the framework is being built
     RULE = ("select: complete enumeration of the 2^4 subsets of {Rule.attr, *.attr, Rule.*, *.*} x {no grammar RREL, "
@@ -450,18 +798,31 @@ class Prop(Check):
             "then random grammars with 1..3 reference rules, 1..2 alternatives assigning t / ts(list) / u, random "
             "registration dictionaries over 30+ keys (incl. keys of other / base rules) bound to provider objects or RREL "
             "strings; rrelsame: 18 RREL expressions (flags +m +p, ^, .., ~, fixed names, sequences) written in the grammar vs "
-            "registered as string under one of the four keys, random package trees, one or two files.  non-trivial = some "
+            "registered as string under one of the four keys — or, for both reference attributes at once (two match rules, "
+            "FQN and PATH[split='/']), under '*.*' / as one provider object under two keys —, random package trees, one or "
+            "two files; multi (one provider serves many references): complete enumeration of the ordered pairs of match "
+            "rules with different delimiters x {'*.*', '*.attr' over two rules, 'Rule.*' over two attributes, one object "
+            "under two keys, two models of one meta-model} x {RREL string, provider object} (90 cases), then random "
+            "histories of one meta-model: 1..3 steps of (re-)registration and model load, 1..3 rules with t / ts(list) / u, "
+            "every assignment with its own match rule (no split parameter, '.', '/', '::', '/'-separated without "
+            "parameter), names of 2..3 parts, values = RREL strings, RREL provider objects with / without split_string, "
+            "callables, one object bound to several keys.  non-trivial = some "
             "reference has at least two of the four keys registered or a grammar RREL together with a registered key "
-            "(select), or both configurations resolve at least one reference (rrelsame)")
+            "(select), or both configurations resolve at least one reference (rrelsame), or one registered expression is asked "
+            "with two delimiters or in two models (multi)")
     MODELLED = ("regenerated each run (tie T): order of the lookup keys (Gen.providerOrder from the `attr_refs` list expression, "
                 "ast); hand-modelled (tie X): the for/else lookup loop and the crossref.scope_provider test of "
                 "resolve_one_step (Select.select), register_scope_providers' string conversion (Select.register), RREL per "
-                "assignment (Select.occRrel); not exhibited: what the selected provider then computes (RREL evaluation is "
+                "assignment (Select.occRrel), the delimiter deduction of RREL.__call__ and the name split of "
+                "find_object_with_path per call (Select.RrelObj.call / callOf), register_scope_providers replacing the "
+                "dictionary in a history of loads (Select.run); not exhibited: what the selected provider then computes (RREL evaluation is "
                 "C11/C12), ModelLoader side effects of registered +m providers on files without references")
     ASSUMPTIONS = [
         "the RREL parser used for registered strings (rrel.parse) and the RREL sub-grammar used inside textX grammars "
         "build the same tree for the same text (`parse` is one function in the model); exercised by the rrelsame cases",
         "obj.__class__.__name__ is the name of the rule that created the object (user classes keep the rule name)",
+        "Python's str.split(sep) and Lean's String.splitOn agree for the non-empty separators used ('.', '/', '::'); "
+        "exercised by every multi case",
     ]
 
     @staticmethod
@@ -487,12 +848,52 @@ class Prop(Check):
                         alt[attr] = grammar_rrel
                         out.append({"kind": "select", "rules": [{"name": "R1", "alts": [alt]}], "reg": reg,
                                     "objs": [{"rule": 0, "alt": 0, "t": "x", "ts": ["y", "x"]}], "origin": "enum"})
+        out += self.enum_multi()
         m = max(0, n - len(out))
-        n_same = m // 4
-        for _ in range(m - n_same):
+        n_same = m // 5
+        n_multi = m // 4
+        for _ in range(m - n_same - n_multi):
             out.append(self.gen_select(rng))
         for _ in range(n_same):
             out.append(self.gen_rrelsame(rng))
+        for _ in range(n_multi):
+            out.append(self.gen_multi(rng))
+        return out
+
+    def enum_multi(self):
+        """one provider, two match rules with different delimiters: every ordered pair of match rules x the ways one
+        provider comes to serve two references (wildcard key over two rules / two attributes of one rule, one object
+        bound to two keys, a second model of the same meta-model) x string / provider object"""
+        out = []
+        tree = [["a", "b", "x"], ["a", "b", "y"], ["a", "z"], ["c", "x"]]
+        ms = ["FQN", "PATH", "CPP", "DOT"]
+        k = 0
+        for m1 in ms:
+            for m2 in ms:
+                if (MATCH[m1][0] or ".") == (MATCH[m2][0] or "."):
+                    continue
+                for how in ("*.*", "*.t", "R1.*", "two-keys", "two-models"):
+                    for obj in (False, True):
+                        if how == "two-keys" and not obj:
+                            continue
+                        k += 1
+                        expr = m_expr(M_POOLS[k % 3], k % 3)
+                        val = {"o": 0} if obj else {"s": expr}
+                        provs = [{"expr": expr, "split": None}] if obj else []
+                        one = how in ("R1.*", "two-models")
+                        if how == "R1.*":
+                            rules = [{"name": "R1", "attrs": {"t": {"m": m1, "rrel": None}, "u": {"m": m2, "rrel": None}}}]
+                            objs = [[{"rule": 0, "t": tree[k % 4], "u": tree[(k + 1) % 4]}]]
+                        else:
+                            rules = [{"name": "R1", "attrs": {"t": {"m": m1, "rrel": None}}},
+                                     {"name": "R2", "attrs": {"t": {"m": m2, "rrel": None}}}]
+                            o1, o2 = {"rule": 0, "t": tree[k % 4]}, {"rule": 1, "t": tree[(k + 1) % 4]}
+                            objs = [[o1], [o2]] if how == "two-models" else [[o1, o2]]
+                        keys = {"two-keys": ["R1.t", "R2.t"], "two-models": ["*.*"]}.get(how, [how])
+                        steps = [{"reg": [[key, val] for key in keys] if i == 0 else None, "objs": os_}
+                                 for i, os_ in enumerate(objs)]
+                        out.append({"kind": "multi", "tree": tree, "rules": rules, "provs": provs, "steps": steps,
+                                    "origin": "enum-multi"})
         return out
 
     def gen_select(self, rng):
@@ -540,6 +941,88 @@ class Prop(Check):
             objs.append(o)
         return {"kind": "select", "rules": rules, "reg": reg, "objs": objs}
 
+    def gen_multi(self, rng):
+        tops, subs, items = ["a", "c"], ["b", "c"], ["x", "y", "z"]
+        tree = []
+        for _ in range(rng.randint(3, 6)):
+            p = [rng.choice(tops)] + ([rng.choice(subs)] if rng.chance(0.55) else []) + [rng.choice(items)]
+            if p not in tree:
+                tree.append(p)
+        mnames = list(MATCH)
+        mweights = [(m, 1 if m in ("RAW", "MIX") else 4) for m in mnames]
+        nrules = rng.weighted([(1, 3), (2, 4), (3, 2)])
+        rules = []
+
+        def some_expr():
+            return m_expr(rng.choice(M_POOLS), rng.weighted([(0, 4), (1, 3), (2, 2), (3, 2)]))
+
+        for i in range(nrules):
+            attrs = {}
+            for a, pr in (("t", 1.0), ("ts", 0.6), ("u", 0.55)):
+                if rng.chance(pr):
+                    # RAW / MIX (resolvable by few providers only) for the optional attributes
+                    attrs[a] = {"m": rng.weighted(mweights if a != "t" else mweights[:4]),
+                                "rrel": some_expr() if rng.chance(0.15) else None}
+            rules.append({"name": f"R{i + 1}", "attrs": attrs})
+        provs = []
+        for i in range(rng.randint(0, 3)):
+            kind = rng.weighted([("plain", 6), ("split", 2), ("callable", 3)])
+            if kind == "callable":
+                provs.append({"p": i})
+            else:
+                provs.append({"expr": some_expr(), "split": rng.choice([".", "/", "::"]) if kind == "split" else None})
+        universe = ["*.*"] + [r["name"] + ".*" for r in rules] + ["*." + a for a in ATTRS]
+        universe += [f"{r['name']}.{a}" for r in rules for a in ATTRS]
+        other = ["R9.*", "R.t", "Model.refs", "*.zz", "Item.name", "r1.t"]
+
+        def some_reg():
+            dens = rng.choice([0.12, 0.3, 0.5])
+            reg = []
+            for key in universe + other:
+                if rng.chance(dens if key in universe else dens / 3):
+                    if provs and rng.chance(0.55):
+                        reg.append([key, {"o": rng.below(len(provs))}])
+                    else:
+                        reg.append([key, {"s": some_expr()}])
+            if not reg and rng.chance(0.7):
+                reg.append(["*.*", {"o": 0} if provs and rng.chance(0.5) else {"s": some_expr()}])
+            return rng.shuffle(reg)
+
+        steps = []
+        reg = {}
+        for si in range(rng.weighted([(1, 3), (2, 4), (3, 2)])):
+            new = some_reg() if (si == 0 and rng.chance(0.93)) or (si > 0 and rng.chance(0.35)) else None
+            if new is not None:
+                reg = {k: v for k, v in new}
+
+            def name_for(r, attr):
+                if rng.chance(0.015):
+                    return [rng.choice(tops), "q"]
+                if not r["attrs"][attr]["rrel"] and m_selected({"provs": provs}, reg, r, attr) is None:
+                    return [rng.choice(PD_NAMES)]
+                return rng.choice(tree)
+
+            def finds(r, attr):
+                # does the provider of this assignment split names the way its match rule writes them?
+                sel = m_selected({"provs": provs}, reg, r, attr)
+                call = m_call({"provs": provs}, sel, r, attr, m_name(r, attr, ["a", "x"]))
+                return call[0] != "find" or call[3] == ["a", "x"]
+
+            objs = []
+            for _ in range(rng.randint(1, 4)):
+                ri = rng.below(nrules)
+                if not finds(rules[ri], "t") and rng.chance(0.8):
+                    ri = rng.below(nrules)
+                r = rules[ri]
+                o = {"rule": ri, "t": name_for(r, "t")}
+                if "ts" in r["attrs"] and rng.chance(0.75 if finds(r, "ts") else 0.12):
+                    o["ts"] = [name_for(r, "ts") for _ in range(rng.randint(1, 3))]
+                if "u" in r["attrs"] and rng.chance(0.75 if finds(r, "u") else 0.12):
+                    o["u"] = name_for(r, "u")
+                objs.append(o)
+            steps.append({"reg": new, "objs": objs})
+        return {"kind": "multi", "tree": tree, "rules": rules, "provs": provs, "steps": steps}
+
     def gen_rrelsame(self, rng):
         cnames = ["A", "B", "C"]
         pnames = ["p1", "p2", "q"]
@@ -562,7 +1045,18 @@ class Prop(Check):
         lib = tree(0, [], lib_fqn) if rng.chance(0.35) else None
         classes_fqn = main_fqn + lib_fqn
 
+        # `both`: one provider serves Attr.type and Ref.target; mostly expressions that search the whole model and
+        # names written in full, so that most references resolve and a wrongly split name shows
+        where = rng.choice(["Attr.type", "Ref.target", "both"])
+        expr = rng.choice(RS_EXPRS)
+        full = where == "both" and rng.chance(0.85)
+        if full:
+            expr = rng.choice([e for e in RS_EXPRS if "packages*.classes" in e and "'A'" not in e])
+        reachable = classes_fqn if "m:" in expr or "+m" in expr else main_fqn
+
         def some_name():
+            if full and reachable and not rng.chance(0.03):
+                return ".".join(rng.choice(reachable))
             if not classes_fqn or rng.chance(0.08):
                 return rng.choice(["Z", "p1.Z", "q.A.B"])
             f = rng.choice(classes_fqn)
@@ -579,34 +1073,57 @@ class Prop(Check):
         fill(main)
         if lib:
             fill(lib)
-        where = rng.choice(["Attr.type", "Ref.target"])
-        rule, attr = where.split(".")
-        key = rng.choice([where, "*." + attr, rule + ".*", "*.*"])
-        refs = [some_name() for _ in range(rng.randint(0, 3))]
+        if where == "both":
+            key = rng.choice(["*.*", "shared"])
+        else:
+            rule, attr = where.split(".")
+            key = rng.choice([where, "*." + attr, rule + ".*", "*.*"])
+        tsplit = "/" if rng.chance(0.6 if where == "both" else 0.3) else None
+        refs = [some_name() for _ in range(rng.randint(1 if where == "both" else 0, 3))]
+        if where == "both" and not any(a.get("type") for a in all_attrs(main)):
+            main["classes"].append({"name": "T", "attrs": [{"name": "a0", "type": some_name()}]})
         if lib:
             # reading: the property speaks about references.  A registered `+m:` provider is a ModelLoader for every
             # model, a grammar RREL only loads imports of models that hold such a reference; keep one in the main file.
-            if where == "Ref.target" and not refs:
+            if where != "Attr.type" and not refs:
                 refs = [some_name()]
-            if where == "Attr.type" and not any(a.get("type") for a in all_attrs(main)):
+            if where != "Ref.target" and not any(a.get("type") for a in all_attrs(main)):
                 main["classes"].append({"name": "T", "attrs": [{"name": "a0", "type": some_name()}]})
-        return {"kind": "rrelsame", "expr": rng.choice(RS_EXPRS), "where": where, "key": key, "main": main, "lib": lib,
-                "refs": refs}
+        return {"kind": "rrelsame", "expr": expr, "where": where, "key": key, "main": main, "lib": lib,
+                "refs": refs, "tsplit": tsplit}
 
     # ---------------------------------------------------------------- implementation
     def impl(self, case):
         if case["kind"] == "select":
             return impl_select(case)
+        if case["kind"] == "multi":
+            return impl_multi(case)
         return impl_rrelsame(case)
 
     # ---------------------------------------------------------------- model
     def model_req(self, case, obs):
         # one request per case is what the runner supports: the first reference whose registration pattern is the
         # richest; all references are covered by `oracle`, the model by the enumeration + the random cases
+        if case["kind"] == "rrelsame" and case["where"] == "both":
+            reg = ([["Attr.type", {"o": 0}], ["Ref.target", {"o": 0}]] if case["key"] == "shared"
+                   else [[case["key"], {"s": case["expr"]}]])
+            name = ((case["refs"] or ["A"])[0]).replace(".", "/" if case.get("tsplit") else ".")
+            return {"op": "calls", "provs": [{"expr": case["expr"], "split": None}], "steps": [{"reg": reg, "refs": [
+                {"cls": "Attr", "attr": "type", "g": None, "name": "p1.A", "split": None},
+                {"cls": "Ref", "attr": "target", "g": None, "name": name, "split": case.get("tsplit")}]}]}
         if case["kind"] == "rrelsame":
             rule, attr = case["where"].split(".")
             return {"op": "select", "cls": rule, "attr": attr, "occs": [[attr, None]], "i": 0,
                     "reg": [[case["key"], {"s": case["expr"]}]]}
+        if case["kind"] == "multi":
+            if obs.get("outcome") != "ok":
+                return None
+            steps = []
+            for step in case["steps"]:
+                steps.append({"reg": step["reg"], "refs": [
+                    {"cls": r["name"], "attr": attr, "g": r["attrs"][attr]["rrel"], "name": m_name(r, attr, path),
+                     "split": MATCH[r["attrs"][attr]["m"]][0]} for (_, r, attr, _, path) in m_refs(case, step)]})
+            return {"op": "calls", "provs": case["provs"], "steps": steps}
         k = self.pick_ref(case)
         o, attr = self.ref_list(case)[k]
         r = case["rules"][o["rule"]]
@@ -637,6 +1154,21 @@ class Prop(Check):
     def compare(self, case, obs, out):
         if "err" in out:
             return f"model rejected the request: {out}"
+        if case["kind"] == "multi":
+            if len(out["calls"]) != len(case["steps"]):
+                return f"model answers {len(out['calls'])} steps"
+            for i, step in enumerate(case["steps"]):
+                d = m_check_step(case, step, out["calls"][i], obs["registered"][i], "model")
+                if d:
+                    return f"model {i + 1}: {d}"
+            return None
+        if case["kind"] == "rrelsame" and case["where"] == "both":
+            sep = case.get("tsplit") or "."
+            name = ((case["refs"] or ["A"])[0]).replace(".", sep)
+            want = [[["find", case["expr"], ".", ["p1", "A"]], ["find", case["expr"], sep, name.split(sep)]]]
+            if out.get("calls") != want:
+                return f"model: calls {out.get('calls')} for one provider serving Attr.type (FQN) and Ref.target, expected {want}"
+            return None
         prov = out["prov"]
         if case["kind"] == "rrelsame":
             if prov != ["rrel", case["expr"]]:
@@ -658,6 +1190,21 @@ class Prop(Check):
                 return (f"RREL `{case['expr']}` written in the grammar gives {obs['grammar']} but registered as a string "
                         f"under {case['key']} gives {obs['registered']}")
             return None
+        if case["kind"] == "multi":
+            if obs["outcome"] != "ok":
+                return f"meta-model / registration failed: {obs}"
+            exp = m_expected_calls(case)
+            for i, step in enumerate(case["steps"]):
+                ob = obs["registered"][i]
+                d = m_check_step(case, step, exp[i], ob, "the documented precedence gives")
+                if d:
+                    return f"model {i + 1} of {len(case['steps'])}: {d}"
+                if ob.get("extra_calls"):
+                    return f"model {i + 1}: {ob['extra_calls']} provider call(s) for positions that hold no reference"
+                if obs["grammar"] != "same" and m_strip(obs["grammar"][i]) != m_strip(ob):
+                    return (f"model {i + 1}: registered RREL strings / provider objects give {m_strip(ob)}, the same "
+                            f"expressions written in the grammar give {m_strip(obs['grammar'][i])}")
+            return None
         if obs["outcome"] != "ok":
             return f"model does not load: {obs}"
         exp = expected_select(case)
@@ -675,6 +1222,14 @@ class Prop(Check):
         if case["kind"] == "rrelsame":
             a, b = obs["grammar"], obs["registered"]
             return "ok" in a and "ok" in b and len(a["ok"]) > 0
+        if case["kind"] == "multi":
+            # some registered value (one provider) is asked with two different delimiters, or in two models
+            seen = {}
+            for si, (step, calls) in enumerate(zip(case["steps"], m_expected_calls(case))):
+                for c, (_, r, attr, _, _) in zip(calls, m_refs(case, step)):
+                    if c[0] == "find" and not r["attrs"][attr]["rrel"]:
+                        seen.setdefault(c[1], set()).add((c[2], si))
+            return any(len(v) > 1 for v in seen.values())
         keys = {k for k, _ in case["reg"]}
         for o, attr in self.ref_list(case):
             r = case["rules"][o["rule"]]
@@ -684,13 +1239,53 @@ class Prop(Check):
         return False
 
     # ---------------------------------------------------------------- shrinking / search
+    def shrink_multi(self, case):
+        steps = case["steps"]
+        for i in range(len(steps)):
+            if len(steps) > 1:
+                rest = [dict(s) for s in steps[:i] + steps[i + 1:]]
+                if steps[i]["reg"] is not None and i < len(rest) and rest[i]["reg"] is None:
+                    rest[i]["reg"] = steps[i]["reg"]
+                yield dict(case, steps=rest)
+        for i, st in enumerate(steps):
+            def with_step(new):
+                return dict(case, steps=steps[:i] + [new] + steps[i + 1:])
+            for j in range(len(st["objs"])):
+                if len(st["objs"]) > 1:
+                    yield with_step(dict(st, objs=st["objs"][:j] + st["objs"][j + 1:]))
+            for j, o in enumerate(st["objs"]):
+                for drop in ("ts", "u"):
+                    if o.get(drop):
+                        o2 = {k: v for k, v in o.items() if k != drop}
+                        yield with_step(dict(st, objs=st["objs"][:j] + [o2] + st["objs"][j + 1:]))
+                if len(o.get("ts") or []) > 1:
+                    for q in range(len(o["ts"])):
+                        yield with_step(dict(st, objs=st["objs"][:j] + [dict(o, ts=o["ts"][:q] + o["ts"][q + 1:])]
+                                             + st["objs"][j + 1:]))
+            for j in range(len(st["reg"] or [])):
+                yield with_step(dict(st, reg=st["reg"][:j] + st["reg"][j + 1:]))
+        used = {o["rule"] for st in steps for o in st["objs"]}
+        for ri in range(len(case["rules"])):
+            if ri not in used and len(case["rules"]) > 1:
+                new_steps = [dict(st, objs=[dict(o, rule=o["rule"] - 1) if o["rule"] > ri else o for o in st["objs"]])
+                             for st in steps]
+                yield dict(case, rules=case["rules"][:ri] + case["rules"][ri + 1:], steps=new_steps)
+        for ri, r in enumerate(case["rules"]):
+            for a in ("ts", "u"):
+                if a in r["attrs"] and not any(o.get(a) for st in steps for o in st["objs"] if o["rule"] == ri):
+                    r2 = dict(r, attrs={k: v for k, v in r["attrs"].items() if k != a})
+                    yield dict(case, rules=case["rules"][:ri] + [r2] + case["rules"][ri + 1:])
+
     def shrink(self, case):
+        if case["kind"] == "multi":
+            yield from self.shrink_multi(case)
+            return
         if case["kind"] != "select":
             if case.get("lib"):
                 yield dict(case, lib=None)
             for i in range(len(case["refs"])):
                 # with a second file keep a reference through the attribute under test in the main file (see gen_rrelsame)
-                if case.get("lib") and case["where"] == "Ref.target" and len(case["refs"]) == 1:
+                if case.get("lib") and case["where"] != "Attr.type" and len(case["refs"]) == 1:
                     continue
                 yield dict(case, refs=case["refs"][:i] + case["refs"][i + 1:])
             return
@@ -724,6 +1319,9 @@ class Prop(Check):
         if case["kind"] == "select":
             v["grammar"] = grammar_select(case)
             v["text"] = render_select(case, {})[0]
+        if case["kind"] == "multi":
+            v["grammar"] = m_grammar(case)
+            v["texts"] = [m_render(case, st)[0] for st in case["steps"]]
         return v
 
     def extra_evidence(self, cases, obs, outs):
@@ -737,7 +1335,17 @@ class Prop(Check):
                 for e in expected_select(c):
                     sel[e[0]] += 1
                     refs += 1
+        shared = {"references": 0, "delimiters": {}, "models": 0}
+        for c in cases:
+            if c["kind"] == "multi":
+                shared["models"] += len(c["steps"])
+                for calls in m_expected_calls(c):
+                    for call in calls:
+                        shared["references"] += 1
+                        if call[0] == "find":
+                            shared["delimiters"][call[2]] = shared["delimiters"].get(call[2], 0) + 1
         loads = sum(o.get("loads", 2) for o in obs if isinstance(o, dict))
-        return {"distribution": {"kinds": kinds, "references": refs, "expected_provider_kinds": sel, "model_loads": loads},
+        return {"distribution": {"kinds": kinds, "references": refs, "expected_provider_kinds": sel, "model_loads": loads,
+                                 "multi": shared},
                 "exhaustive": "2^4 key subsets x grammar RREL y/n x single/list x objects/strings for one reference (128 cases)",
                 "translation_units": {"Gen.providerOrder": read_provider_order()}}
